@@ -32,6 +32,7 @@ func (f LeveldbDiskStorage) Create(tbl *btapb.Table) Rows {
 	if err := os.RemoveAll(path); err != nil {
 		f.errLog(err, "os.RemoveAll %q", path)
 	}
+	verifYield("disk.create.cleaned")
 	f.SetTableMeta(tbl)
 	newFunc := func(nuke bool) *leveldb.DB {
 		return newDiskDb(path, nuke)
